@@ -481,6 +481,10 @@ kll_sketch<T, C, A> kll_sketch<T, C, A>::deserialize(std::istream& is, const Ser
     read(is, levels.data(), sizeof(levels[0]) * num_levels);
   }
   levels[num_levels] = capacity;
+  if (num_levels == 0) throw std::invalid_argument("Possible corruption: number of levels must not be 0");
+  for (uint8_t lvl = 0; lvl < num_levels; ++lvl) {
+    if (levels[lvl] > levels[lvl + 1]) throw std::invalid_argument("Possible corruption: level boundaries must not decrease or exceed capacity");
+  }
   optional<T> tmp; // space to deserialize min and max
   optional<T> min_item;
   optional<T> max_item;
@@ -566,6 +570,10 @@ kll_sketch<T, C, A> kll_sketch<T, C, A>::deserialize(const void* bytes, size_t s
     ptr += copy_from_mem(ptr, levels.data(), sizeof(levels[0]) * num_levels);
   }
   levels[num_levels] = capacity;
+  if (num_levels == 0) throw std::invalid_argument("Possible corruption: number of levels must not be 0");
+  for (uint8_t lvl = 0; lvl < num_levels; ++lvl) {
+    if (levels[lvl] > levels[lvl + 1]) throw std::invalid_argument("Possible corruption: level boundaries must not decrease or exceed capacity");
+  }
   optional<T> tmp; // space to deserialize min and max
   optional<T> min_item;
   optional<T> max_item;
